@@ -10,11 +10,13 @@ package main
 import (
 	"encoding/json"
 	"fmt"
+	"net"
 	"os"
 	"strings"
 	"time"
 
 	"github.com/google/martian/v3/zzverif/vrt"
+	"github.com/google/martian/v3/zzverif/vtls"
 
 	hw "verif/checks/h2world"
 	"verif/lib"
@@ -24,6 +26,10 @@ type step struct {
 	Client []hw.Spec `json:"c,omitempty"`
 	Server []hw.Spec `json:"s,omitempty"`
 	Resume bool      `json:"resume,omitempty"` // the stalled endpoint starts reading before this step
+	// XC / XS: frames written through the check's own writer (ext.go); an endpoint uses either Client/Server or
+	// XC/XS within one step
+	XC []xspec `json:"xc,omitempty"`
+	XS []xspec `json:"xs,omitempty"`
 }
 
 type scenario struct {
@@ -35,6 +41,12 @@ type scenario struct {
 	Bound      int    `json:"bound"`
 	Class      string `json:"class,omitempty"` // scenario attribute used in signatures (e.g. "continuation")
 	Stall      string `json:"stall,omitempty"` // "server" / "client": that endpoint does not read (tiny socket buffer) until a step with Resume
+	// audit extensions
+	Proc        string  `json:"proc,omitempty"`        // stream processor chain (see factories)
+	PrefaceJoin []xspec `json:"prefacejoin,omitempty"` // own-writer frames that share one write with the client preface
+	ShortReads  bool    `json:"shortreads,omitempty"`  // every read of the relay may return a single byte (an explored deviation)
+	Wire        bool    `json:"wire,omitempty"`        // judge the bytes the relay wrote (priority sections)
+	NoDeepen    bool    `json:"nodeepen,omitempty"`    // thorough keeps the quick bound (the scenario is too large for one more deviation)
 }
 
 type finding struct{ Sig, Desc string }
@@ -50,8 +62,10 @@ func settingsStep() step {
 func run(sc scenario) (body func(), check func(r *vrt.Result) []finding) {
 	var w *hw.World
 	var prefaceErr error
+	var ownC, ownS *ownWriter
 	body = func() {
-		opts := hw.Options{}
+		opts := hw.Options{Factories: factories(sc.Proc)}
+		ownC, ownS = newOwnWriter(), newOwnWriter()
 		var stall *vrt.Gate
 		switch sc.Stall {
 		case "server":
@@ -62,7 +76,29 @@ func run(sc scenario) (body func(), check func(r *vrt.Result) []finding) {
 			opts.ClientReaderGate, opts.ProxyToClientCap = stall, 48
 		}
 		w = hw.New(opts)
-		prefaceErr = w.Client.WritePreface(sc.PrefaceSeg)
+		// spawning the relay is not a scheduling point: nothing has run yet, the taps below see every byte
+		w.ClientProxy.KeepWritten, w.ClientProxy.ShortReads = sc.Wire, sc.ShortReads
+		dial := vtls.DialHook
+		vtls.DialHook = func(network, addr string, cfg *vtls.Config) (net.Conn, error) {
+			c, err := dial(network, addr, cfg)
+			if w.ServerProxy != nil {
+				w.ServerProxy.KeepWritten, w.ServerProxy.ShortReads = sc.Wire, sc.ShortReads
+			}
+			return c, err
+		}
+		if len(sc.PrefaceJoin) > 0 {
+			b := []byte(hw.Preface)
+			for _, x := range sc.PrefaceJoin {
+				fb, ev := ownC.frames(x, vrt.Tick())
+				b = append(b, fb...)
+				if ev != nil {
+					ownC.sent = append(ownC.sent, *ev)
+				}
+			}
+			_, prefaceErr = w.Client.Conn.Write(b)
+		} else {
+			prefaceErr = w.Client.WritePreface(sc.PrefaceSeg)
+		}
 		vrt.WaitQuiescent()
 		if w.Server != nil {
 			w.Client.SetSegment(sc.Seg)
@@ -77,6 +113,21 @@ func run(sc scenario) (body func(), check func(r *vrt.Result) []finding) {
 				}
 				if len(st.Server) > 0 {
 					ts = append(ts, w.Run(w.Server, st.Server))
+				}
+				for _, xr := range []struct {
+					e  *hw.Endpoint
+					o  *ownWriter
+					xs []xspec
+				}{{w.Client, ownC, st.XC}, {w.Server, ownS, st.XS}} {
+					if xr := xr; len(xr.xs) > 0 {
+						ts = append(ts, vrt.GoNamed(xr.e.Name+"-writer", func() {
+							for _, x := range xr.xs {
+								if xr.o.write(xr.e, x, vrt.Tick) != nil {
+									return
+								}
+							}
+						}))
+					}
 				}
 				vrt.WaitQuiescent()
 				_ = ts
@@ -114,11 +165,27 @@ func run(sc scenario) (body func(), check func(r *vrt.Result) []finding) {
 						pushc = true
 					}
 				}
+				xs := st.XC
+				if dir == "s2c" {
+					xs = st.XS
+				}
+				for _, x := range xs {
+					if x.XT == "block" && len(x.Cuts) > 0 {
+						if x.T == "push" {
+							pushc = true
+						} else {
+							cont = true
+						}
+					}
+				}
 			}
 			if pushc {
 				parts = append(parts, "push_continuation")
 			} else if cont {
 				parts = append(parts, "continuation")
+			}
+			if extClasses[sc.Class] {
+				parts = append(parts, sc.Class) // families added by the audit name their class in the signature
 			}
 			return strings.Join(parts, "+")
 		}
@@ -127,9 +194,18 @@ func run(sc scenario) (body func(), check func(r *vrt.Result) []finding) {
 			return out
 		}
 		failed := map[string]string{}
+		// the relay closes both connections when a direction fails, so the other direction then fails with "use of
+		// closed network connection": that one is a consequence, whichever of the two goroutines logs first
+		cause := 0
 		for i, m := range w.Errors {
-			if i > 0 {
-				break // later errors are consequences: the relay closes both connections when a direction fails
+			if !strings.Contains(m, "use of closed network connection") {
+				cause = i
+				break
+			}
+		}
+		for i, m := range w.Errors {
+			if i != cause {
+				continue
 			}
 			d, c := hw.ErrorClass(m)
 			if _, ok := failed[d]; !ok {
@@ -196,8 +272,8 @@ func run(sc scenario) (body func(), check func(r *vrt.Result) []finding) {
 				add(dir+":"+cls, "stream %d %s: sent [%s] but the receiver observed [%s]", id, dir, hw.Join(s), hw.Join(rr))
 			}
 		}
-		cmp("c2s", w.Client.Sent, w.Server.Recv)
-		cmp("s2c", w.Server.Sent, w.Client.Recv)
+		cmp("c2s", allSent(w.Client, ownC), dropUnknown(w.Server.Recv))
+		cmp("s2c", allSent(w.Server, ownS), dropUnknown(w.Client.Recv))
 		// no frame delivered to an endpoint is larger than the maximum frame size that endpoint announced
 		// (announcements are made in the first step of a scenario, before any other traffic)
 		mfs := map[string]int{"client": 16384, "server": 16384}
@@ -231,6 +307,9 @@ func run(sc scenario) (body func(), check func(r *vrt.Result) []finding) {
 		}
 		if w.Server.Illegal != "" {
 			add("c2s:frame_inside_header_block", "the server received a %s", w.Server.Illegal)
+		}
+		if sc.Wire {
+			out = append(out, wireCheck(sc, w, ownC, ownS)...)
 		}
 		if w.Client.RdErr != nil || w.Server.RdErr != nil {
 			add("endpoint_read_error", "client read err=%v server read err=%v", w.Client.RdErr, w.Server.RdErr)
@@ -497,7 +576,7 @@ func scenarios(tier string) []scenario {
 			{{T: "rst", Stream: 1, Code: 8}},
 			{{T: "data", Stream: 1, Len: 2, EndStream: true}},
 		} {
-			out = append(out, scenario{Fam: "burst", Name: fmt.Sprintf("stalled server: %d queued DATA released at once, then tail %d, then the server resumes", n, ti), Stall: "server", Bound: 1,
+			out = append(out, scenario{Fam: "burst", Name: fmt.Sprintf("stalled server: %d queued DATA released at once, then tail %d, then the server resumes", n, ti), Stall: "server", Bound: 1, NoDeepen: n > 14,
 				Steps: []step{
 					{Client: []hw.Spec{{T: "settings"}}, Server: []hw.Spec{{T: "settings", Settings: [][2]uint32{{4, 0}}}}},
 					{Client: append([]hw.Spec{{T: "headers", Stream: 1, Fields: reqFields}}, datas...)},
@@ -505,7 +584,7 @@ func scenarios(tier string) []scenario {
 					{Client: tail},
 					{Resume: true},
 				}})
-			out = append(out, scenario{Fam: "burst", Name: fmt.Sprintf("stalled client: %d queued response DATA released at once, then tail %d, then the client resumes", n, ti), Stall: "client", Bound: 1,
+			out = append(out, scenario{Fam: "burst", Name: fmt.Sprintf("stalled client: %d queued response DATA released at once, then tail %d, then the client resumes", n, ti), Stall: "client", Bound: 1, NoDeepen: n > 14,
 				Steps: []step{
 					{Client: []hw.Spec{{T: "settings", Settings: [][2]uint32{{4, 0}}}, {T: "headers", Stream: 1, Fields: reqFields, EndStream: true}}, Server: []hw.Spec{{T: "settings"}}},
 					{Server: append([]hw.Spec{{T: "headers", Stream: 1, Fields: resFields}}, datas...)},
@@ -665,7 +744,10 @@ func scenarios(tier string) []scenario {
 				}})
 		}
 	}
-	return out
+	if os.Getenv("C08_BASE") != "" {
+		return out // development aid: only the scenarios that existed before the audit (to show what a mutant needs)
+	}
+	return append(out, extScenarios(tier, out)...)
 }
 
 type shardOut struct {
@@ -712,9 +794,9 @@ func main() {
 	}
 	if i, n := lib.ShardEnv(); n > 0 {
 		out := &shardOut{Counters: map[string]int64{}}
-		per := 20 * time.Second
+		per := 45 * time.Second // the heaviest quick scenario takes about 1.5 s of CPU; the machine is shared
 		if tier == "thorough" {
-			per = 2 * time.Minute
+			per = 5 * time.Minute // the heaviest thorough scenario (burst, 14 queued frames, 2 deviations) takes about 80 s of CPU
 		}
 		for si, sc := range scen {
 			if si%n != i {
@@ -732,11 +814,12 @@ func main() {
 					b = 1
 				}
 			}
-			if tier == "thorough" {
+			// thorough: one more deviation. (Before the audit duplex got two more and every burst scenario one more; measured
+			// on an idle machine a duplex scenario at 3 deviations and a burst scenario with 16 or more queued frames at 2
+			// deviations do not finish within minutes, so thorough always ended at the per-scenario cap with
+			// exhaustive=false. The bounds below are the ones that complete.)
+			if tier == "thorough" && !sc.NoDeepen {
 				b++
-				if sc.Fam == "duplex" {
-					b++
-				}
 			}
 			if v := os.Getenv("C08_BOUND"); v != "" {
 				fmt.Sscanf(v, "%d", &b)
@@ -754,7 +837,19 @@ func main() {
 				tf.Close()
 			}
 			seen := map[string]bool{}
+			nontrivial := false
 			st := vrt.Explore(vrt.ExploreConfig{Bound: b, Deadline: time.Now().Add(per), Config: vrt.Config{MaxPoints: 400000}}, body, func(prefix []int, r *vrt.Result) bool {
+				if !nontrivial {
+					n := 0
+					for _, l := range r.Log {
+						for _, p := range []string{"<- HEADERS", "<- DATA", "<- RST", "<- PRIORITY", "<- PUSH"} {
+							if strings.Contains(l, p) {
+								n++
+							}
+						}
+					}
+					nontrivial = n >= 2
+				}
 				for _, f := range check(r) {
 					if !seen[f.Sig] {
 						seen[f.Sig] = true
@@ -773,8 +868,12 @@ func main() {
 				os.Exit(2)
 			}
 			out.Counters["scenarios"]++
+			if nontrivial {
+				out.Counters["scenarios_nontrivial"]++
+			}
 			out.Counters["scenarios_"+sc.Fam]++
 			out.Counters["executions"] += int64(st.Execs)
+			out.Counters["executions_"+sc.Fam] += int64(st.Execs)
 			out.Counters["points"] += st.Points
 			out.Counters["distinct_outcomes"] += int64(st.DistinctLogs)
 			out.Counters["horizon_hits"] += int64(st.HorizonHits)
@@ -822,8 +921,11 @@ func main() {
 	rep.Coverage["transitions"] = rep.Counter("points")
 	rep.Coverage["traces_validated_against_impl"] = rep.Counter("executions")
 	rep.Coverage["exhaustive"] = rep.Incomplete == ""
-	rep.Coverage["bounds"] = fmt.Sprintf("%d frame scripts: all single-stream lifecycle shapes (header fragments 1..3 x priority x DATA shapes incl. padding 1/255 and empty END_STREAM frames x end by END_STREAM/trailers/RST/open) in both directions, duplex pairs, all interleavings of two (thorough: three) streams' lifecycles, transport segmentations 1/2/7 bytes and preface splits, receiver windows 0/1/4 blocking DATA with trailers and other streams' headers pending, PUSH_PROMISE with continuations, SETTINGS/PING/GOAWAY/PRIORITY, HPACK table scenarios; default schedule for pure input families and <=1 deviation for duplex/interleave/window/hpack/misc in quick; +1 everywhere (+2 for duplex/window) in thorough", len(scen))
+	rep.Coverage["evaluations"] = rep.Counter("executions")
+	rep.Coverage["distinct_nontrivial"] = rep.Counter("scenarios_nontrivial")
+	rep.Coverage["rule"] = "a case is a frame script (scenario) together with every schedule of it within the deviation bound; each execution is judged by the whole oracle (evaluations = executions); a scenario is non-trivial when in at least one of its executions the endpoints received two or more stream-level frames (HEADERS, DATA, RST_STREAM, PRIORITY, PUSH_PROMISE) through the relay"
+	rep.Coverage["bounds"] = fmt.Sprintf("%d frame scripts: all single-stream lifecycle shapes (header fragments 1..3 x priority x DATA shapes incl. padding 1/255 and empty END_STREAM frames x end by END_STREAM/trailers/RST/open) in both directions, duplex pairs, all interleavings of two (thorough: three) streams' lifecycles, transport segmentations 1/2/7 bytes and preface splits, receiver windows 0/1/4 blocking DATA with trailers and other streams' headers pending, PUSH_PROMISE with continuations, SETTINGS/PING/GOAWAY/PRIORITY, HPACK table scenarios; default schedule for pure input families and <=1 deviation for duplex/interleave/window/hpack/misc/burst in quick; +1 everywhere in thorough except the burst scenarios with 16 or more queued frames. Audit families: a cross-section of all of these with pass-through processor chains (8 chain shapes); header blocks cut at every offset 1..30 and with empty CONTINUATION frames, padded HEADERS/PUSH_PROMISE (pad 1/2/256), 37 fragmented blocks per connection; HEADERS with an empty fragment; the receiver's grant (WINDOW_UPDATE, SETTINGS_INITIAL_WINDOW_SIZE, two partial grants) at every position of a 5-frame script, both directions blocked at once, 8 streams released in reverse order; re-encoded block lengths k*16384-6..+1 (k=1,2) with priority / without / PUSH_PROMISE; SETTINGS_HEADER_TABLE_SIZE lowered with blocks in flight, raised to 8192/65536 with 6400 bytes of table in use, lowered again, set twice in one frame; extension frame types; preface sharing a write with the first frames; one single-byte read anywhere; SETTINGS with unknown/repeated identifiers; repeated/empty fields, informational responses, stream id 2^31-1; priority sections with all-zero parameters judged on the relay's output bytes", len(scen))
 	rep.Coverage["explanation"] = "each execution runs the real h2 relay (rewritten for the scheduler, tls.Dial replaced by the vtls seam) between two frame-level endpoints with their own HPACK state"
-	rep.Assumptions = []string{"endpoints are harness peers built on x/net/http2.Framer (the same framer the relay uses)", "K <= 3 streams; one SETTINGS_HEADER_TABLE_SIZE change"}
+	rep.Assumptions = []string{"endpoints are harness peers built on x/net/http2.Framer (the same framer the relay uses)", "K <= 3 streams in the interleaving families (8 in the grant family, 37 sequential ones in the cut family)", "the length of a re-encoded header block is predicted with a fresh hpack.Encoder (the relay uses the same encoder implementation)"}
 	rep.Finish()
 }
